@@ -14,6 +14,7 @@ RULE = ("inputs: generator programs under >= 3 random layouts (redundant parenth
         "for inputs whose comments stand on their own lines between statements; (4) `ucg fmt` / `ucg fmt -w` give "
         "the same bytes as the library path. distinct = distinct input texts; non-trivial = parses and has >= 2 "
         "statements or a comment.")
+RULE += (" " + 'Also: 71 hostile field names (leading underscore, digits, dashes, dots, blanks, empty, non-ASCII letters after an ASCII one, every keyword, punctuation) in 8 positions each (tuple literal, selector, copy, select arm, module parameter, constrained field, exemplar, string), a grid of 244 float literals over 61 decimal magnitudes, one to three trailing comment groups after the last statement, comment-only files.')
 
 
 def comments_of(text):
